@@ -181,15 +181,15 @@ def blobStep (d : DSt) (toks : List String) : DSt × String :=
       | some e => ({ d with ts := d.ts.reset e.2 }, "ok")
       | none => bad d
     | none => bad d
-  | ["sp.load", i, hex] =>        -- after a rollback: reload object i (base storage bytes given)
+  | ["sp.load", i, hex] =>        -- after a rollback: reload object i (bytes in the base storage given)
     match i.toNat?, parseBytes hex with
     | some i, some base =>
       let c := match d.ts.loadBlob i with
-        | some b => some b
-        | none => if hex = "none" then none else some base
-      ({ d with objs := objSet d.objs i { committed := c, working := none } },
-       hexOrDash (c.getD []))
+        | some b => b
+        | none => base
+      ({ d with objs := objSet d.objs i { committed := some c, working := none } }, hexOrDash c)
     | _, _ => bad d
+  | ["sp.reset"] => ({ d with ts := TmpStore.empty, sps := [] }, "ok")
   | _ => bad d
 
 def main : IO Unit :=
